@@ -764,6 +764,14 @@ class Engine(ExprMixin, CallMixin):
         prev = self.verified.get(key, {})
         self.verified[key] = dict(sha=self.src.sha(fnode), paths=self.paths[key], normal_exits=nret + prev.get('normal_exits', 0),
                                   lineno=fnode.lineno)
+        # reachability canary: the path condition of the first normal exit (with every contract assumption, lemma
+        # instance and callee postcondition collected on the way) must be satisfiable - an inconsistent assumption
+        # would make every obligation on that path hold vacuously
+        for kind, s, pl in res:
+            if kind in ('ret', 'fall'):
+                self.oblige(f"{key}{tagc}#vacuity.first-normal-exit-reachable", State(),
+                            VBool(z3.Not(z3.And(*s.pc)) if s.pc else False), kind='vacuity-neg')
+                break
         if nret == 0 and c.ensures:
             # cover: at least one path must reach a normal return, otherwise the ensures are vacuous
             self.oblige(f"{key}{tagc}#vacuity.some-normal-exit", State(), VBool(False), kind='vacuity-cover')
